@@ -90,7 +90,8 @@ package proxy
 //@   ensures resp.Body != nil
 //@   ensures old(specHdInv(clientHd)) ==> specHdInv(clientHd)
 //@   ensures specFetchErr(err)
-//@   ensures specReqOK(req)
+//@   ensures specReqOK(req) && req.ctx == old(req.ctx)
+//@   ensures [C05] upcancels >= old(upcancels) && (!ctxcancellable(old(req.ctx)) ==> upcancels == old(upcancels))
 
 // 200 is stored when cacheable, 304 renews the stored entry, 416 is retried once;
 // every other answer is neither stored nor does it touch the cache.
@@ -106,7 +107,8 @@ package proxy
 //@   ensures [C06] old(resp.StatusCode) != 200 && old(resp.StatusCode) != 304 && old(resp.StatusCode) != 416 ==> cached == nil && err == nil && unchanged("cache.") && upcalls == old(upcalls)
 //@   ensures old(specHdInv(clientHd)) ==> specHdInv(clientHd)
 //@   ensures specFetchErr(err)
-//@   ensures specReqOK(req)
+//@   ensures specReqOK(req) && req.ctx == old(req.ctx)
+//@   ensures [C05] upcancels >= old(upcancels) && (!ctxcancellable(old(req.ctx)) ==> upcancels == old(upcancels))
 
 //@ props C09 C16
 //@ func fetcher.sendRequestToUpstream
@@ -116,8 +118,9 @@ package proxy
 //@   ensures upcalls == old(upcalls) + 1
 //@   ensures result2 != nil ==> result0 == nil && iserr(result2, ErrSendRequestFailed) && upfails == old(upfails) + 1
 //@   ensures result2 == nil ==> result0 != nil && allocated(result0) && !old(allocated(result0)) && result0.Body != nil && specHdrOK(result0.Header) && result0.Request == req && result0 == uplast && upfails == old(upfails)
-//@   ensures specReqOK(req)
+//@   ensures specReqOK(req) && req.ctx == old(req.ctx)
 //@   ensures specFetchErr(result2)
+//@   ensures [C05] upcancels >= old(upcancels) && (!ctxcancellable(old(req.ctx)) ==> upcancels == old(upcancels))
 
 // One origin fetch whose answer is stored when it may be.  It fails only when the origin
 // could not be reached; trouble on the cache side (store refused or failed, entry gone
@@ -134,10 +137,11 @@ package proxy
 //@   ensures [C05] result1 == nil && result0.Type == 1 ==> !old(allocated(result0.Direct.Response))
 //@   ensures [C03] result1 == nil && result0.Type == 0 ==> result0.Cached.fetchInfo.Status == 0
 //@   ensures [C03] result1 == nil && result0.Type == 1 ==> result0.Direct.fetchInfo.Status == 0
-//@   ensures specReqOK(req)
+//@   ensures specReqOK(req) && req.ctx == old(req.ctx)
 //@   ensures old(specHdInv(clientHd)) ==> specHdInv(clientHd)
 //@   ensures specFetchErr(result1)
 //@   ensures result1 == nil && result0.Type == 0 ==> !result0.Cached.Coalesced
+//@   ensures [C05] upcancels >= old(upcancels) && (!ctxcancellable(old(req.ctx)) ==> upcancels == old(upcancels))
 
 // A fetch that bypasses the cache: exactly one origin request, whose response is handed back.
 //@ props C05 C09 C16
@@ -149,8 +153,9 @@ package proxy
 //@   ensures [C09] result1 != nil ==> upfails == old(upfails) + 1
 //@   ensures [C09] result1 == nil ==> specFetchShape(result0) && result0.Type == 1 && upfails == old(upfails)
 //@   ensures [C05] result1 == nil ==> result0.Direct.Response == uplast && !old(allocated(result0.Direct.Response))
-//@   ensures specReqOK(req)
+//@   ensures specReqOK(req) && req.ctx == old(req.ctx)
 //@   ensures specFetchErr(result1)
+//@   ensures [C05] upcancels >= old(upcancels) && (!ctxcancellable(old(req.ctx)) ==> upcancels == old(upcancels))
 
 //@ props C05 C09 C16
 //@ func fetcher.handleCacheMiss
@@ -162,10 +167,11 @@ package proxy
 //@   ensures upfails >= old(upfails) && upcalls >= old(upcalls) + 1
 //@   ensures [C03] result1 == nil && result0.Type == 0 ==> result0.Cached.fetchInfo.Status == 0
 //@   ensures [C03] result1 == nil && result0.Type == 1 ==> result0.Direct.fetchInfo.Status == 0
-//@   ensures specReqOK(req)
+//@   ensures specReqOK(req) && req.ctx == old(req.ctx)
 //@   ensures old(specHdInv(clientHd)) ==> specHdInv(clientHd)
 //@   ensures specFetchErr(result1)
 //@   ensures result1 == nil && result0.Type == 0 ==> !result0.Cached.Coalesced
+//@   ensures [C05] upcancels >= old(upcancels) && (!ctxcancellable(old(req.ctx)) ==> upcancels == old(upcancels))
 
 // No conditional request header of the client is left (StripRegularConditionals ran).
 //@ spec func specNoConditionals(h any) bool = !in(h, "If-None-Match") && !in(h, "If-Modified-Since") && !in(h, "If-Match") && !in(h, "If-Unmodified-Since")
@@ -190,17 +196,20 @@ package proxy
 //@   ensures upfails >= old(upfails) && upcalls >= old(upcalls)
 //@   ensures [C05] result1 == nil && result0.Cached.fetchInfo.Status == 2 ==> upcalls == old(upcalls)
 //@   ensures [C03] result1 == nil && upcalls == old(upcalls) ==> result0.Cached.fetchInfo.Status == 2
-//@   ensures specReqOK(req)
+//@   ensures specReqOK(req) && req.ctx == old(req.ctx)
 //@   ensures old(specHdInv(clientHd)) ==> specHdInv(clientHd)
 //@   ensures specFetchErr(result1)
 //@   ensures result1 == nil ==> !result0.Cached.Coalesced
+//@   ensures [C05] upcancels >= old(upcancels) && (!ctxcancellable(old(req.ctx)) ==> upcancels == old(upcancels))
 
 // Coalescing: the shared function is getFromCacheOrFetch.  What a follower may assume
 // about the values it is handed is what every run establishes (shared-result).  Each
 // caller ends up with a body of its own: a follower re-opens the stored entry, and
 // falls back to a fetch of its own when that fails or when the shared answer was
 // not cacheable.  The call fails only when an origin request failed - its own or the
-// shared one it waited for.
+// shared one it waited for; and the shared run is never failed by the cancellation of the
+// request context of the one client that happens to run it (upcancels: origin requests
+// that failed because their own context was cancelled).
 //@ props C05 C09 C16 C15
 //@ func fetcher.dedupFetch
 //@   nopanic
@@ -208,6 +217,7 @@ package proxy
 //@   requires specFetcher(f) && req != nil && req.URL != nil && req.Header != nil && clientHd != nil
 //@   ghost callsite-requires [C06] getFromCacheOrFetch old(specNoConditionals(req.Header)) ==> specNoConditionals(arg_req.Header)
 //@   ghost shared-result [C05] (err == nil ==> specFetchShape(val) && val.Type == 0) && (err != nil ==> iserr(err, ErrNotCacheable) || upfails > old(upfails)) && specFetchErr(err)
+//@   ghost shared-result [C05] upcancels == old(upcancels)
 //@   ghost shared-assigns cache. map_map_cache.CacheKey atomic.Int64 ghost:mapsum ghost:fsinode ghost:jsize ghost:jexp ghost:handleinode ghost:isize ghost:icontent
 //@   ensures old(specHdInv(clientHd)) ==> specHdInv(clientHd)
 //@   ensures !iserr(err, ErrRangeNotSatisfiable) && !iserr(err, ErrIfRangeMismatch)
@@ -217,7 +227,7 @@ package proxy
 //@   ensures [C05] err == nil && fetched.Type == 0 && fetched.Cached.Coalesced ==> !old(allocated(fetched.Cached.Entry))
 //@   ensures upfails >= old(upfails) && upcalls >= old(upcalls)
 //@   ensures sferrs >= old(sferrs)
-//@   ensures specReqOK(req)
+//@   ensures specReqOK(req) && req.ctx == old(req.ctx)
 
 //@ props C07 C16 C15
 //@ func Proxy.handleRangeRequest
@@ -387,5 +397,5 @@ package proxy
 //@   ensures result1 != nil ==> result0 == nil && iserr(result1, ErrSendRequestFailed) && upfails == old(upfails) + 1
 //@   ensures result1 == nil ==> result0 != nil && allocated(result0) && !old(allocated(result0)) && result0.Body != nil && specHdrOK(result0.Header) && result0.Request == req && result0 == uplast && upfails == old(upfails)
 //@   ensures upcancels >= old(upcancels) && (upcancels > old(upcancels) ==> result1 != nil && ctxcancellable(old(req.ctx)))
-//@   ensures specReqOK(req)
+//@   ensures specReqOK(req) && req.ctx == old(req.ctx)
 //@   ensures specFetchErr(result1)
